@@ -301,6 +301,7 @@ func rulesC09(c *Ctx) {
 	ruleEmptyRef(c, "C09.EMPTYREF")
 	ruleRefStore(c, "C09.REFSTORE")
 	ruleSymbolPathKey(c, "C09.SYMPATH")
+	ruleTagOnlyNil(c, "C09.TAGONLYNIL")
 	// every entity scan of the checks iterates the VALID ids of the store (for an extended child store:
 	// only entities that have child data), otherwise parent-only entities are reported as broken
 	ruleValidIds(c, "C09.VALIDIDS")
